@@ -11,3 +11,11 @@ from .client import *
 from .server import *
 
 from .._generated.net import *
+
+from importlib import import_module as _import_module
+
+# The star-imports above also copy module objects that share a name with one of this package's
+# own submodules (e.g. the generated net.client package would shadow eolib.protocol.net.client).
+# Make sure the documented submodules win.
+for _name in ("packet", "client", "server"):
+    globals()[_name] = _import_module(f".{_name}", __name__)
